@@ -50,6 +50,7 @@ def run(tier):
     _a_hashable(chk, sites)
     _b_key_params(chk, sites)
     _b_keyed_state(chk, sites)
+    _b_identity_keys(chk, sites)
     _c_purity(chk, sites)
     _d_aliasing(chk, sites)
     _e_invalidation(chk, sites)
@@ -324,6 +325,63 @@ def _b_keyed_state(chk, sites, rule="C20.b", only_classes=None):
                           f"the memoised factory of {s.method.name}() depends on self.{attr} (which other cache keys of {cname} include) but its key {ast.unparse(s.key_expr)[:80]} does not, "
                           f"and assigning {attr} does not drop these entries: after {attr} changes the old value is served",
                           sample=f"{s.method.name}: depends on {attr}; keyed or invalidated")
+    return n
+
+
+_SETTERS = {}
+
+
+def _has_setter(attr):
+    """True when some class of the package defines a property setter named `attr` (the attribute can change after construction)."""
+    if attr not in _SETTERS:
+        found = False
+        for m in ri.all_modules():
+            if "_tests" in m.name or f"{attr}.setter" not in m.source:
+                continue
+            for q, fn in ri.functions_in(m):
+                if fn.name == attr and any(ast.unparse(d) == f"{attr}.setter" for d in fn.decorator_list):
+                    found = True
+        _SETTERS[attr] = found
+    return _SETTERS[attr]
+
+
+def _b_identity_keys(chk, sites):
+    """A key component id(x) identifies the object, not its state: if the memoised computation reads attributes of x that can be
+    assigned after construction (there is a setter of that name), changing them leaves the key - and the served value - as it was."""
+    n = 0
+    for s in sites:
+        for a in (_key_args(s) or []):
+            if not (isinstance(a, ast.Call) and isinstance(a.func, ast.Name) and a.func.id == "id" and a.args):
+                continue
+            path = ast.unparse(a.args[0])
+            bodies = [s.factory if not isinstance(s.factory, ast.Lambda) else s.factory.body]
+            # one level of the instance's own methods called by the factory
+            for c in ast.walk(bodies[0]):
+                if isinstance(c, ast.Call) and isinstance(c.func, ast.Attribute) and isinstance(c.func.value, ast.Name) and c.func.value.id == "self":
+                    hit = ri.class_member(s.mod, s.cls, c.func.attr)
+                    if hit is not None and isinstance(hit[2], ast.FunctionDef):
+                        bodies.append(hit[2])
+            # ... and of the instance's own properties it reads
+            for b in list(bodies):
+                for x in ast.walk(b):
+                    if isinstance(x, ast.Attribute) and isinstance(x.value, ast.Name) and x.value.id == "self" and isinstance(x.ctx, ast.Load):
+                        hit = ri.class_member(s.mod, s.cls, x.attr)
+                        if hit is not None and isinstance(hit[2], ast.FunctionDef) and "property" in ri.decorators(hit[2]) and hit[2] not in bodies:
+                            bodies.append(hit[2])
+            reads = set()
+            for b in bodies:
+                aliases = {path}
+                for st in ast.walk(b):
+                    if isinstance(st, ast.Assign) and len(st.targets) == 1 and isinstance(st.targets[0], ast.Name) and ast.unparse(st.value) == path:
+                        aliases.add(st.targets[0].id)
+                for x in ast.walk(b):
+                    if isinstance(x, ast.Attribute) and isinstance(x.ctx, ast.Load) and ast.unparse(x.value) in aliases:
+                        reads.add(x.attr)
+            mutable = sorted(r for r in reads if _has_setter(r))
+            n += 1
+            chk.check(not mutable, "C20.b", f"{s.name}[identity key {path}]",
+                      f"the key contains id({path}) but the memoised computation reads {path}.{{{', '.join(mutable)}}}, which can be assigned later: after such an assignment the "
+                      f"old value is still served", sample=f"{s.method.name}: id({path}) with no settable attribute of it read", nontrivial=bool(reads))
     return n
 
 
